@@ -1,0 +1,76 @@
+// Copyright © 2024 Attestant Limited.
+// Licensed under the Apache License, Version 2.0 (the "License");
+// you may not use this file except in compliance with the License.
+// You may obtain a copy of the License at
+//
+//     http://www.apache.org/licenses/LICENSE-2.0
+//
+// Unless required by applicable law or agreed to in writing, software
+// distributed under the License is distributed on an "AS IS" BASIS,
+// WITHOUT WARRANTIES OR CONDITIONS OF ANY KIND, either express or implied.
+// See the License for the specific language governing permissions and
+// limitations under the License.
+
+//go:build verif
+
+package wallet
+
+import (
+	"context"
+
+	"github.com/attestantio/go-eth2-client/spec/phase0"
+	"github.com/attestantio/vouch/services/chaintime"
+	nullmetrics "github.com/attestantio/vouch/services/metrics/null"
+	"github.com/attestantio/vouch/services/validatorsmanager"
+	"github.com/pkg/errors"
+	"github.com/rs/zerolog"
+	zerologger "github.com/rs/zerolog/log"
+	e2wtypes "github.com/wealdtech/go-eth2-wallet-types/v2"
+)
+
+// NewForVerifC13 builds the service as New does after parameter parsing, with the wallet stores
+// injected instead of filesystem locations and without a spec provider.  Like New it ends with
+// refreshAccounts and refreshValidators, and fails when the latter fails.
+func NewForVerifC13(ctx context.Context,
+	logLevel zerolog.Level,
+	stores []e2wtypes.Store,
+	accountPaths []string,
+	passphrases [][]byte,
+	processConcurrency int64,
+	validatorsManager validatorsmanager.Service,
+	farFutureEpoch phase0.Epoch,
+	currentEpochProvider chaintime.Service,
+) (*Service, error) {
+	log := zerologger.With().Str("service", "accountmanager").Str("impl", "wallet").Logger().Level(logLevel)
+	s := &Service{
+		log:                  log,
+		monitor:              nullmetrics.New(),
+		processConcurrency:   processConcurrency,
+		stores:               stores,
+		accountPaths:         accountPaths,
+		passphrases:          passphrases,
+		validatorsManager:    validatorsManager,
+		slotsPerEpoch:        32,
+		farFutureEpoch:       farFutureEpoch,
+		currentEpochProvider: currentEpochProvider,
+	}
+
+	s.refreshAccounts(ctx)
+	if err := s.refreshValidators(ctx); err != nil {
+		return nil, errors.Wrap(err, "failed to fetch validator states")
+	}
+
+	return s, nil
+}
+
+// VerificationRegexStringsForVerifC13 exposes the texts of the regular expressions built from the
+// account paths.
+func (s *Service) VerificationRegexStringsForVerifC13(paths []string) []string {
+	regexes := s.accountPathsToVerificationRegexes(paths)
+	res := make([]string, 0, len(regexes))
+	for _, regex := range regexes {
+		res = append(res, regex.String())
+	}
+
+	return res
+}
